@@ -30,24 +30,21 @@ PROPS = {
             H("c07_small_readers", timeout=300),
             H("c07_get_line_16", timeout=300),
             H("c07_get_integer_total_24", timeout=900),
-            H("c07_int_exact_small_p1", timeout=1200, covers=["a 7-digit negative number accepted"]),
+            H("c07_int_exact_small_p01", timeout=1200, covers=["a 7-digit negative number accepted"]),
             H("c07_int_exact_small_p19", timeout=1200, covers=["a 7-digit negative number accepted"]),
-            H("c07_int_exact_limit_p1", timeout=1200, covers=["i64::MAX accepted", "i64::MIN accepted", "an out-of-range number rejected"]),
+            H("c07_int_exact_limit_p01", timeout=1200, covers=["i64::MAX accepted", "i64::MIN accepted", "an out-of-range number rejected"]),
             H("c07_int_exact_limit_p19", timeout=1200, covers=["i64::MAX accepted", "i64::MIN accepted", "an out-of-range number rejected"]),
-            H("c07_check_parse_6", timeout=1500, rules=REC_RULES, covers=["an array was checked and parsed", "a bulk string / null was checked and parsed"]),
-            H("c07_parse_alone_6", timeout=1500, rules=REC_RULES),
             H("c07_depth", timeout=900, covers=["nesting beyond the cap is rejected"]),
             H("c07_get_integer_total_44", tier="thorough", timeout=2400),
             H("c07_int_exact_small_p24", tier="thorough", timeout=1800, covers=["a 7-digit negative number accepted"]),
             H("c07_int_exact_limit_p18", tier="thorough", timeout=1800, covers=["i64::MAX accepted", "i64::MIN accepted", "an out-of-range number rejected"]),
             H("c07_int_exact_limit_p24", tier="thorough", timeout=1800, covers=["i64::MAX accepted", "i64::MIN accepted", "an out-of-range number rejected"]),
-            H("c07_check_parse_8", tier="thorough", timeout=3600, rules=REC_RULES, covers=["an array was checked and parsed", "a bulk string / null was checked and parsed"]),
         ],
         bounds={
             "get_integer totality": "buffer of N fully symbolic bytes (N=24 quick, 44 thorough), symbolic length 1..N, symbolic start offset 1..len",
             "get_integer exactness": "concrete start offsets {1,19} (thorough: +{18,24}); (a) <= 7 symbolic digits, (b) symbolic sign + 16 concrete digits 9223372036854775 + symbolic tail: all 17..20-digit numbers around both i64 limits",
-            "check/parse": "fully symbolic buffer of 6 (thorough 8) bytes, symbolic length; recursion unwound to the harness bound",
-            "depth": "k in 0..=40 nested '*1\\r\\n' headers followed by 4 symbolic bytes",
+            "check/parse": "whole-function harnesses on a symbolic buffer do not fit (DESIGN.md 0.2/7) and are not registered; the agreement clause is not decided",
+            "depth": "40 concrete nested '*1\\r\\n' headers followed by 4 symbolic bytes must be rejected by check and parse; recursion unwinding assertion at 45",
             "outside": "buffers longer than N; the unrestricted 20-digit value-equality query (does not finish in 30 min); stack use per frame (measured by the native replay only)",
         },
         assumptions=NET_STUBS + [
@@ -56,50 +53,17 @@ PROPS = {
             "Kani models the dev profile (overflow checks on); release-profile wrap-around is observed by the native replay",
         ],
     ),
-    "C08": dict(
-        crate="net",
-        title="RESP encoding and decoding round-trip, independent of stream chunking",
-        harnesses=[
-            H("c08_null", timeout=600, rules=REC_RULES),
-            H("c08_simple_0", timeout=900, rules=REC_RULES),
-            H("c08_simple_2", timeout=900, rules=REC_RULES),
-            H("c08_error_3", timeout=900, rules=REC_RULES),
-            H("c08_bulk_0", timeout=900, rules=REC_RULES),
-            H("c08_bulk_2", timeout=900, rules=REC_RULES),
-            H("c08_bulk_4", timeout=900, rules=REC_RULES),
-            H("c08_integer_1", timeout=900, rules=REC_RULES),
-            H("c08_integer_4", timeout=900, rules=REC_RULES),
-            H("c08_integer_limits", timeout=1200, rules=REC_RULES, covers=["i64::MIN round-trips", "i64::MAX round-trips"]),
-            H("c08_array_bulk2", timeout=1500, rules=REC_RULES),
-            H("c08_array_mixed", timeout=1500, rules=REC_RULES),
-            H("c08_integer_7", tier="thorough", timeout=1800, rules=REC_RULES),
-        ],
-        bounds={
-            "frames": "SimpleString/Error of 0,2,3 ASCII bytes without CR/LF; BulkString of 0,2,4 arbitrary bytes; Null; Integer as canonical digit string of 1,4 (thorough 7) symbolic digits with symbolic sign, plus sign x last digit around both i64 limits; arrays [bulk(1),bulk(2)], [int,null,simple], []",
-            "stream": "encoding followed by 3 symbolic bytes; symbolic cut point over every strict prefix",
-            "outside": "the encoder itself (Connection::write_frame: async/tokio, validated natively against the reference encoder, not solver-decided); Connection::read_frame's loop and its EOF distinction; non-ASCII simple strings; longer payloads; nested arrays (write_frame refuses them)",
-        },
-        assumptions=NET_STUBS + [
-            "bytes::{Bytes,Buf} are the inline-array model of models/bytes",
-            "the reference encoder of the harness equals Connection::write_frame (checked natively by replay/net enc_diff on the repository's write test cases and boundary integers; trusted base, not solver-decided)",
-            "recursion of Frame::check/parse unwound 3 times (unwinding assertion proves deeper recursion unreachable on these inputs)",
-        ],
-    ),
     "C06": dict(
         crate="net",
-        title="Over the network SET/GET/DEL answer exactly as the map model, in order (REDUCED: request bytes -> command only)",
+        title="Over the network SET/GET/DEL answer exactly as the map model, in order (REDUCED: command gate only)",
         harnesses=[
-            H("c06_decode_get", timeout=1500, rules=REC_RULES),
-            H("c06_decode_set", timeout=1800, rules=REC_RULES),
-            H("c06_decode_del2", timeout=1800, rules=REC_RULES),
-            H("c06_gate", timeout=1500, covers=["a SET passed the gate", "a DEL passed the gate", "a non-UTF-8 key was refused"]),
+            H("c06_gate", timeout=1800, covers=["a SET passed the gate", "a DEL passed the gate", "a non-UTF-8 key was refused"]),
         ],
         bounds={
-            "requests": "SET k v (k 2 ASCII bytes, v 3 arbitrary bytes incl. CR/LF/NUL); GET k; DEL k1 k2; each followed by 3 symbolic bytes, every strict prefix cut",
-            "gate": "array of <= 3 elements (bulk strings of <= 3 arbitrary bytes or a non-bulk element) or a non-array frame",
-            "outside": "one-reply-per-request ordering, the reply computed from the store (DEL's count), flush behaviour, pipelining depth: all inside async code over tokio (Connection, Handler::run, Set/Get/Del::apply) which cannot be encoded",
+            "gate": "Command::try_from over an array of <= 3 elements (bulk strings of <= 3 arbitrary bytes or a non-bulk element) or a non-array frame: Ok ONLY for exact upper-case name, exact arity, UTF-8 keys",
+            "outside": "request decoding from bytes (needs the whole Frame::check/parse: does not fit, DESIGN.md 0.2/7), one-reply-per-request ordering, the reply computed from the store (DEL's count), flush behaviour, segmentation, pipelining: async code over tokio (Connection, Handler::run, Set/Get/Del::apply) cannot be encoded",
         },
-        assumptions=NET_STUBS + ["bytes model", "keys restricted to ASCII in the decode harnesses (arbitrary bytes in the gate harness)"],
+        assumptions=NET_STUBS + ["bytes model"],
     ),
 }
 
@@ -112,7 +76,11 @@ STORE_ASSUME = [
     "keys: pool of 2 concrete 1-byte keys; values: 1 symbolic byte; timestamps concrete 0; file ids < 8; files <= 32 bytes",
 ]
 
-SHAPES_NOTE = "operation shapes are concrete and enumerated (DESIGN.md section 9 (b)): S1 tombstone-on-disk + rollover on every write + reopen; S2 overwrite/delete/absent-delete/merge of the active file/write/reopen via hint; S3 older live file + newer tombstone-only file, merge selected by fragmentation 0.4, reopen; S4 merge output with hint on disk + older file, merge rolling over into several outputs, reopen; S5 selection by dead bytes, two merges, reopen. Symbolic within a shape: every value byte"
+SHAPES_NOTE = "operation shapes are concrete and enumerated (DESIGN.md section 9 (b)): S1 tombstone-on-disk + rollover on every write + reopen; S2 overwrite/delete/absent-delete/merge of the active file/write/reopen via hint; S3 older live file + newer tombstone-only file, merge selected by fragmentation 0.4, reopen; S4 merge output with hint on disk + older file, merge rolling over into several outputs, reopen; S5 selection by dead bytes, two merges, reopen; S6 older all-dead file + newer file with the tombstone selected by dead bytes, reopen. Symbolic within a shape: every value byte"
+
+
+def _kills(prefix, ks, quick=()):
+    return [H("%s_k%02d" % (prefix, k), tier=("quick" if k in quick else "thorough"), timeout=1800, rules=STORE_RULES) for k in ks]
 
 
 def _shapes(prefix, which, tier_of=lambda i: "quick", timeout=1500, covers=None):
@@ -122,16 +90,16 @@ def _shapes(prefix, which, tier_of=lambda i: "quick", timeout=1500, covers=None)
 
 PROPS.update({
     "C01": dict(crate="store", title="The store behaves as a key-value map for every operation sequence",
-                harnesses=_shapes("c01", [1, 2, 3, 4, 5], covers={1: ["three rollovers"], 2: ["the merge wrote a hint entry"]}),
+                harnesses=_shapes("c01", [1, 2, 3, 4, 5, 6], tier_of=lambda i: "quick" if i in (1, 2, 3) else "thorough", covers={1: ["three rollovers"], 2: ["the merge wrote a hint entry"]}),
                 bounds={"shapes": SHAPES_NOTE, "outside": "longer histories, more keys, longer keys/values, entries larger than the write buffer, real DashMap/LRU/mmap implementations, real bincode layout"},
                 assumptions=STORE_ASSUME),
     "C02": dict(crate="store", title="Closing and reopening a store preserves exactly its contents, deletions included",
                 harnesses=[H("c01_shape_1", timeout=1500, rules=STORE_RULES, covers=["three rollovers"]), H("c01_shape_2", timeout=1500, rules=STORE_RULES),
-                           H("c01_shape_5", timeout=1500, rules=STORE_RULES), H("c12_shape_4", timeout=1500, rules=STORE_RULES)],
+                           H("c01_shape_5", tier="thorough", timeout=1500, rules=STORE_RULES), H("c12_shape_4", timeout=1500, rules=STORE_RULES)],
                 bounds={"shapes": SHAPES_NOTE + "; every shape ends with a reopen through the real rebuild_storage (scan path and hint path) and re-reads both keys", "outside": "two-digit file ids and foreign directory entries (name parsing is executed on single-digit ids only)"},
                 assumptions=STORE_ASSUME),
     "C05": dict(crate="store", title="Compaction never changes what any key reads, now or after a restart",
-                harnesses=_shapes("c01", [2, 3, 4, 5], covers={2: ["the merge wrote a hint entry"]}),
+                harnesses=_shapes("c01", [2, 3, 4, 5, 6], tier_of=lambda i: "quick" if i in (2, 3, 6) else "thorough", covers={2: ["the merge wrote a hint entry"], 6: ["the tombstone's file was merged"]}),
                 bounds={"shapes": SHAPES_NOTE + "; merges selected by: everything (S2, S4), fragmentation > 0.4 (S3), dead bytes > 0 (S5), followed by reads and by a reopen", "outside": "thresholds are concrete per shape (a symbolic threshold makes the selected set symbolic and the run intractable - measured)"},
                 assumptions=STORE_ASSUME),
     "C12": dict(crate="store", title="Hint files are only an accelerator: recovery with or without them agrees",
@@ -141,31 +109,29 @@ PROPS.update({
                 bounds={"shapes": SHAPES_NOTE + "; after the shape the index is rebuilt twice by the real rebuild_storage, as is and with every *.hint unlinked, and both pool keys are resolved through both", "outside": "as C01"},
                 assumptions=STORE_ASSUME),
     "C13": dict(crate="store", title="Compaction actually reclaims space and never grows the store (REDUCED: a merge never increases the total data size)",
-                harnesses=_shapes("c14", [2, 3, 4, 5]),
+                harnesses=_shapes("c14", [2, 3, 4, 5], tier_of=lambda i: "quick" if i in (2, 4) else "thorough"),
                 bounds={"shapes": SHAPES_NOTE + "; total length of the linked *.data inodes compared before/after every real merge", "outside": "the 'exactly as large as a fresh store' and idempotence clauses are not decided"},
                 assumptions=STORE_ASSUME),
     "C14": dict(crate="store", title="Data files are append-only and immutable, with ids that only grow",
-                harnesses=_shapes("c14", [1, 2, 3, 4, 5]) + [H("c03_crash_b", timeout=1800, rules=STORE_RULES)],
+                harnesses=_shapes("c14", [1, 2, 3, 4, 5], tier_of=lambda i: "quick" if i in (1, 2, 4) else "thorough"),
                 bounds={"shapes": SHAPES_NOTE + "; the monitor inside the model file system is asserted after every step: exclusive create + append by the creator only, no rename/set_len/truncate/open-for-write, ids per kind strictly above every earlier id, no data file beyond max_file_size by more than one entry", "outside": "bytes-never-change is enforced by construction of the model (appends only)"},
                 assumptions=STORE_ASSUME),
     "C19": dict(crate="store", title="Per-file live/dead accounting always matches the files' real contents",
-                harnesses=_shapes("c19", [1, 2, 3, 4, 5]),
+                harnesses=_shapes("c19", [1, 2, 3, 4, 5, 6], tier_of=lambda i: "quick" if i in (1, 2, 5) else "thorough"),
                 bounds={"shapes": SHAPES_NOTE + "; after every step the real LogStatistics of every file are compared with ground truth computed by the harness from the file bytes and the real index; counter arithmetic is overflow-checked by Kani", "outside": "as C01"},
                 assumptions=STORE_ASSUME),
     "C03": dict(crate="store", title="A process crash at any instant loses no acknowledged write and corrupts nothing",
-                harnesses=[H("c03_crash_a", timeout=2400, rules=STORE_RULES, covers=["the kill fell on an unlink of the merge", "the kill fell on a hint-file write"]),
-                           H("c03_crash_b", timeout=2400, rules=STORE_RULES, covers=["the kill fell on the creation of a new active file"]),
-                           H("c03_crash_c", timeout=2400, rules=STORE_RULES)],
-                bounds={"shapes": "A: two values on disk; open, del a, merge of everything, put b. B: empty directory, rollover on every write; put a, put b, del a. C: two values on disk, merge rolling over into several outputs. SYMBOLIC: the kill point over EVERY file-system call of the run (initial recovery included), every value byte. After the run the directory as of the kill is installed and the real rebuild_storage is run on it", "outside": "a second kill during the recovery after the first; longer workloads"},
+                harnesses=_kills("c03_b", range(0, 11), quick=(1, 3, 5, 7)) + _kills("c03_c", range(4, 27), quick=(8, 10, 12, 14, 16, 18, 20)) + _kills("c03_a", range(6, 29), quick=(12, 16, 20, 24)) + _kills("c03_d", range(8, 27), quick=()),
+                bounds={"shapes": "A: two values on disk; open, del a, merge of everything, put b. B: empty directory, rollover on every write; put a, put b, del a. C: two values on disk, merge rolling over into several outputs. D: value in an older file, its tombstone in a newer one, merge of both. One harness instance per CONCRETE kill point k (the directory is snapshotted before file-system call number k); thorough spans every call of the run, quick a subset inside the merge / rollover windows; SYMBOLIC: every value byte. After the run the directory as of the kill is installed and the real rebuild_storage is run on it", "outside": "a second kill during the recovery after the first; longer workloads"},
                 assumptions=STORE_ASSUME + ["process-kill failure model: the page cache survives, the directory is exactly the effect of the prefix of calls"]),
     "C09": dict(crate="store", title="With sync=always an acknowledged write survives power loss, merges included",
-                harnesses=[H("c09_power_a", timeout=2400, rules=STORE_RULES), H("c09_power_b", timeout=2400, rules=STORE_RULES), H("c09_power_c", timeout=2400, rules=STORE_RULES)],
+                harnesses=_kills("c09_b", range(2, 14), quick=(3, 5, 7)) + _kills("c09_c", range(6, 31, 2), quick=(10, 12, 14, 16, 18, 20)) + _kills("c09_a", range(10, 33, 2), quick=(14, 18, 22)),
                 bounds={"shapes": "as C03 with sync=always; additionally SYMBOLIC per file: the surviving length, anywhere between the length at its last completed fsync and its written length; creations and removals issued persist", "outside": "directory-entry durability (the property's failure model makes creations/removals persistent)"},
                 assumptions=STORE_ASSUME),
     "C20": dict(crate="store", title="A failed disk operation is reported and leaves the store consistent",
                 harnesses=[H("c20_fault_a", timeout=2400, rules=STORE_RULES, covers=["a file creation failed", "a write failed"]),
                            H("c20_fault_b", timeout=2400, rules=STORE_RULES, covers=["an unlink of the merge failed"]),
-                           H("c20_fault_a_sync", tier="thorough", timeout=2400, rules=STORE_RULES)],
+                           H("c20_fault_sync_a", tier="thorough", timeout=2400, rules=STORE_RULES)],
                 bounds={"shapes": "A: rollover on every write; put a, put b, del a, put a. B: values on disk; del a, merge of everything, put b. SYMBOLIC: the failing call over every file-system call after open (create, write, fsync, unlink, stat, open, mmap, read), the failure mode (error without effect / short write of a symbolic non-empty strict prefix followed by an error), every value byte. Followed by a restart", "outside": "faults during the initial recovery; more than one fault; entries larger than the write buffer"},
                 assumptions=STORE_ASSUME),
     "C17": dict(crate="store", title="A closed store rejects all use (REDUCED: closed-handle clause only)",
